@@ -919,3 +919,211 @@ def h_transfer_twin(kind: int) -> bool:
     kind = pick(kind, 0, 5)
     with untraced():
         return _transfer(kind, True)
+
+
+# ---------------------------------------------------------------------------
+# Condition.wait_for (a loop around wait() with deadline arithmetic) and wait() under a recursively held lock: CrossHair
+# over the real methods, the waits / semaphore operations played by recording stand-ins, the clock symbolic
+
+class _WaitForWorld:
+    def __init__(self, nd, t0):
+        self.nd = nd
+        self.now = t0
+        self.waits = []          # (timeout passed, instant of the call)
+        self.pred_calls = 0
+        self.pred_true_from = None
+        self.truth = False
+        self.bad = None
+
+    def clock(self):
+        return self.now
+
+
+def _wait_for(code, t0, timeout, d, want):
+    import billiard.synchronize as bs
+    from harness.hbase import NDCode, Prune, fail
+    nd = NDCode(code)
+    w = _WaitForWorld(nd, t0)
+    tmo = None if timeout < 0 else timeout
+    token = ('predicate-value',)
+    cond = bs.Condition.__new__(bs.Condition)
+    maxw = 3
+
+    def predicate():
+        w.pred_calls += 1
+        if w.truth:
+            return token
+        return 0          # falsy, and not False: wait_for returns the predicate's value
+
+    def wait(timeout=None):
+        k = len(w.waits)
+        if k >= maxw:
+            raise Prune()
+        w.waits.append((timeout, w.now))
+        if w.truth:
+            w.bad = 'C17:wait_for:waits-although-the-predicate-already-holds'
+        notified = nd.flag() if timeout is not None else True
+        if timeout is None:
+            w.now += d[k]
+        elif notified:
+            if d[k] > timeout:
+                raise Prune()            # a notification arrives within the time asked for
+            w.now += d[k]
+        else:
+            if d[k] < timeout:
+                raise Prune()            # a timed-out wait lasted at least what was asked for
+            w.now += d[k]
+        # the state change that came with the wake-up (a notification without one is a spurious wake-up, also allowed)
+        if nd.flag() or (timeout is None and k == maxw - 1):
+            w.truth = True
+        return notified
+
+    cond.wait = wait
+    saved = bs.monotonic
+    bs.monotonic = w.clock
+    try:
+        if nd.flag():
+            w.truth = True           # the predicate holds from the start
+        start = w.now
+        try:
+            res = bs.Condition.wait_for(cond, predicate, tmo)
+        except Prune:
+            return True
+    finally:
+        bs.monotonic = saved
+    # oracle, from the statement of threading.Condition.wait_for which the class mirrors: the value returned is the predicate's last value; it is truthy
+    # iff the predicate held at an evaluation; no wait is started once the deadline has passed or with more than the time left; a falsy
+    # result is given only once the deadline has passed; the predicate is re-evaluated after every wake-up
+    if w.bad:
+        return fail(w.bad)
+    if w.truth and res is not token:
+        return fail('C17:wait_for:result-is-not-the-predicate-value')
+    if not w.truth and res:
+        return fail('C17:wait_for:truthy-although-the-predicate-never-held')
+    if w.pred_calls != len(w.waits) + 1:
+        return fail('C17:wait_for:predicate-not-re-evaluated-after-each-wait')
+    for (t, at) in w.waits:
+        if tmo is None:
+            if t is not None:
+                return fail('C17:wait_for:timed-wait-without-a-timeout')
+        else:
+            if t is None or t != start + tmo - at or t <= 0:
+                return fail('C17:wait_for:wait-not-bounded-by-the-time-left')
+    if not w.truth:
+        if tmo is None:
+            return fail('C17:wait_for:gave-up-without-a-timeout')
+        if w.now < start + tmo:
+            return fail('C17:wait_for:gave-up-before-the-deadline')
+    if want and not (len(w.waits) >= 2 and w.truth):
+        return True
+    return not want
+
+
+def h_wait_for(code: int, t0: int, timeout: int, d0: int, d1: int, d2: int) -> bool:
+    """
+    pre: 0 <= code < 10 ** 40 and 1 <= t0 <= 50 and -1 <= timeout <= 30 and 0 <= d0 <= 40 and 0 <= d1 <= 40 and 0 <= d2 <= 40
+    post: _
+    """
+    return _wait_for(code, t0, timeout, (d0, d1, d2), False)
+
+
+def h_wait_for_twin(code: int, t0: int, timeout: int, d0: int, d1: int, d2: int) -> bool:
+    """
+    pre: 0 <= code < 10 ** 40 and 1 <= t0 <= 50 and -1 <= timeout <= 30 and 0 <= d0 <= 40 and 0 <= d1 <= 40 and 0 <= d2 <= 40
+    post: _
+    """
+    return _wait_for(code, t0, timeout, (d0, d1, d2), True)
+
+
+class _RecSem:
+    """recording stand-in for a SemLock-based object"""
+
+    def __init__(self, name, log, script):
+        self.name, self.log, self.script = name, log, script
+        self._semlock = self
+        self.held = 0
+
+    def acquire(self, block=True, timeout=None):
+        self.log.append((self.name, 'acquire', block, timeout))
+        if self.name == 'lock':
+            self.held += 1
+            return True
+        if self.name == 'wait':
+            mode = self.script['wake']
+            if mode == 2:
+                raise KeyboardInterrupt()
+            return mode == 1
+        return True
+
+    def release(self):
+        self.log.append((self.name, 'release'))
+        if self.name == 'lock':
+            self.held -= 1
+
+    def _is_mine(self):
+        return self.held > 0
+
+    def _count(self):
+        return self.held
+
+
+def _wait_rec(depth, wake, timeout, want):
+    """wait() under a lock held `depth` times by the caller (an RLock): the waiter announces itself once, lets go of every level before
+    sleeping on the wake-up semaphore with the caller's timeout, and - however the sleep ends (woken, timed out, interrupted) - acknowledges
+    once and takes every level back, so that the caller still owns the lock `depth` times"""
+    import billiard.synchronize as bs
+    from harness.hbase import fail
+    log = []
+    script = {'wake': wake}
+    cond = bs.Condition.__new__(bs.Condition)
+    cond._lock = _RecSem('lock', log, script)
+    cond._sleeping_count = _RecSem('sleeping', log, script)
+    cond._woken_count = _RecSem('woken', log, script)
+    cond._wait_semaphore = _RecSem('wait', log, script)
+    cond._lock.held = depth
+    tmo = None if timeout < 0 else timeout
+    raised = None
+    try:
+        res = bs.Condition.wait(cond, tmo)
+    except AssertionError:
+        if depth == 0:
+            return (not log) or fail('C17:wait:semaphores-touched-without-owning-the-lock')
+        return fail('C17:wait:assertion-failed-although-the-lock-is-owned')
+    except KeyboardInterrupt as e:
+        raised = e
+        res = None
+    if depth == 0:
+        return fail('C17:wait:accepted-without-owning-the-lock')
+    exp = ([('sleeping', 'release')] + [('lock', 'release')] * depth + [('wait', 'acquire', True, tmo)]
+           + [('woken', 'release')] + [('lock', 'acquire', True, None)] * depth)
+    norm = [e if e[0] != 'lock' or e[1] != 'acquire' else ('lock', 'acquire', True, None) for e in log]
+    if norm != exp:
+        return fail('C17:wait:recursive-lock-not-released-and-retaken-level-by-level')
+    if cond._lock.held != depth:
+        return fail('C17:wait:ownership-depth-changed-across-wait')
+    if wake == 2:
+        if raised is None:
+            return fail('C17:wait:interrupt-swallowed')
+    elif res is not (wake == 1):
+        return fail('C17:wait:result-is-not-the-wake-up-result')
+    if want and depth >= 2 and wake == 2:
+        return False
+    return True
+
+
+def h_wait_recursive(depth: int, wake: int, timeout: int) -> bool:
+    """
+    pre: 0 <= depth <= 4 and 0 <= wake <= 2 and -1 <= timeout <= 20
+    post: _
+    """
+    from harness.hbase import pick
+    return _wait_rec(pick(depth, 0, 4), pick(wake, 0, 2), timeout, False)
+
+
+def h_wait_recursive_twin(depth: int, wake: int, timeout: int) -> bool:
+    """
+    pre: 0 <= depth <= 4 and 0 <= wake <= 2 and -1 <= timeout <= 20
+    post: _
+    """
+    from harness.hbase import pick
+    return _wait_rec(pick(depth, 0, 4), pick(wake, 0, 2), timeout, True)
